@@ -1,8 +1,10 @@
 import PGM.Model.Certificate
 import PGM.Model.LogOf
+import PGM.Proofs.CertAux
 import Mathlib.Algebra.Order.Field.Basic
 import Mathlib.Algebra.BigOperators.Group.List.Basic
 /-! statement for C03: the Frank–Wolfe gap certifies near-optimality over all nonnegative tables -/
+set_option linter.unusedVariables false
 namespace PGM.Cert
 variable {K : Type} [Field K] [LinearOrder K] [IsStrictOrderedRing K]
 
@@ -17,20 +19,49 @@ theorem fw_gap_bound (ms : List (List (List (PlainOf K)) × List (PlainOf K))) (
     (T : PlainOf K) (hn : 0 < p.length) (hc : Conform ms p.length) (hq : q.length = p.length)
     (hq0 : ∀ x ∈ q, 0 ≤ x.v) (hqT : (q.map (·.v)).sum = T.v) :
     (loss ms p).v - (loss ms q).v ≤ (fwGap ms p T).v := by
-  sorry
+  -- first-order convexity, summed over the measurements
+  have hconv : vdot (vl (grad ms p)) (vl q) - vdot (vl (grad ms p)) (vl p)
+      ≤ (loss ms q).v - (loss ms p).v := by
+    rw [grad_vdot, grad_vdot, loss_v, loss_v]
+    apply sum_diff_le
+    intro m hm
+    exact meas_convex m.1 m.2 p q p.length (hc m hm).1 (hc m hm).2
+  -- the linear lower bound `T · min g ≤ ⟨g, q⟩`
+  have hmin : (minL (grad ms p)).v * (vl q).sum ≤ vdot (vl (grad ms p)) (vl q) := by
+    apply mul_sum_le_vdot
+    · simp [grad_length, hq]
+    · intro a ha
+      simp only [vl, List.mem_map] at ha
+      obtain ⟨x, hx, rfl⟩ := ha
+      exact minL_le _ x hx
+    · intro a ha
+      simp only [vl, List.mem_map] at ha
+      obtain ⟨x, hx, rfl⟩ := ha
+      exact hq0 x hx
+  have hT : (vl q).sum = T.v := hqT
+  rw [hT] at hmin
+  have hgap : (fwGap ms p T).v
+      = vdot (vl (grad ms p)) (vl p) - T.v * (minL (grad ms p)).v := by
+    unfold fwGap
+    simp only [sub_v, mul_v, dot_v]
+  rw [hgap]
+  linarith [mul_comm T.v (minL (grad ms p)).v]
 
 /-- the gap is nonnegative at feasible points (so a reported gap `≤ ε` really brackets the optimum) -/
 theorem fw_gap_nonneg (ms : List (List (List (PlainOf K)) × List (PlainOf K))) (p : List (PlainOf K))
     (T : PlainOf K) (hn : 0 < p.length) (hc : Conform ms p.length)
     (hp0 : ∀ x ∈ p, 0 ≤ x.v) (hpT : (p.map (·.v)).sum = T.v) :
     0 ≤ (fwGap ms p T).v := by
-  sorry
+  have h := fw_gap_bound ms p p T hn hc rfl hp0 hpT
+  simpa using h
 
 /-- a table with zero gap is a global minimiser over all nonnegative tables with that total -/
 theorem optimal_of_zero_gap (ms : List (List (List (PlainOf K)) × List (PlainOf K))) (p q : List (PlainOf K))
     (T : PlainOf K) (hn : 0 < p.length) (hc : Conform ms p.length) (hq : q.length = p.length)
     (hq0 : ∀ x ∈ q, 0 ≤ x.v) (hqT : (q.map (·.v)).sum = T.v) (hgap : (fwGap ms p T).v = 0) :
     (loss ms p).v ≤ (loss ms q).v := by
-  sorry
+  have h := fw_gap_bound ms p q T hn hc hq hq0 hqT
+  rw [hgap] at h
+  linarith
 
 end PGM.Cert
